@@ -360,28 +360,25 @@ def h_from_points(npts, align, pad_mode):
         padding = Int("padding", 0, 2**20)
     pts = []
     fin = []
+    finxy = []
     for k in range(npts):
         x = Real(f"x{k}")
         y = Real(f"y{k}")
+        # each coordinate is finite or not on its own (NaN in x, +inf in y when not)
+        fx, fy = Bool(f"finite{k}"), Bool(f"finite_y{k}")
+        finxy.append((fx, fy))
+        fin.append(And(fx, fy) if not symx.concrete_mode() else (fx and fy))
         if symx.concrete_mode():
-            f = Bool(f"finite{k}")
-            fin.append(f)
-            pts.append([x if f else float("nan"), y])
+            pts.append([x if fx else float("nan"), y if fy else float("inf")])
         else:
-            f = Bool(f"finite{k}")
-            fin.append(f)
-            pts.append((x, y, f))
+            pts.append((x, y))
     if symx.concrete_mode():
         xy = real_np.asarray(pts, dtype="float64").reshape(-1, 2)
         coords = [(ex(p[0]), ex(p[1])) for p in pts]
     else:
-        # a point is either finite (x, y) or non-finite; the finiteness mask forks per point
-        rows = []
-        coords = []
-        for x, y, f in pts:
-            rows.append([x, y])
-            coords.append((x, y))
-        xy = _MaskedPoints(rows, fin)
+        rows = [[x, y] for x, y in pts]
+        coords = list(pts)
+        xy = _MaskedPoints(rows, finxy)
     ry, rx = roi.roi_from_points(xy, (ny, nx), padding, align=None if align == 0 else align)
     prove("pts:within", And(0 <= rx.start, rx.stop <= nx, 0 <= ry.start, ry.stop <= ny))
     prove("pts:ordered", And(rx.start <= rx.stop, ry.start <= ry.stop))
@@ -444,8 +441,9 @@ def h_window():
 
 
 class _MaskedPoints:
-    """Nx2 points where row k is finite iff fin[k] (a symbolic flag): presents to roi_from_points
-    exactly the numpy operations it uses (ndim/shape, isfinite mask, row filtering)."""
+    """Nx2 points where coordinate (k, c) is finite iff fin[k][c] (symbolic flags): presents to
+    roi_from_points the numpy operations it uses (ndim/shape, isfinite mask, row filtering in
+    either idiom: xy[keep, :] or xy[keep])."""
 
     def __init__(self, rows, fin):
         self.rows, self.fin = rows, fin
@@ -455,13 +453,19 @@ class _MaskedPoints:
     def isfinite_mask(self):
         from .. import npmodel
 
-        return npmodel.SymArray([[f, True] for f in self.fin], "bool")
+        return npmodel.SymArray([[fx, fy] for fx, fy in self.fin], "bool")
 
     def filtered(self, keep):
         from .. import npmodel
 
-        rows = [r for r, k in zip(self.rows, keep.data) if bool(k)]
-        return npmodel.SymArray(rows, "float64")
+        kd = keep.data if hasattr(keep, "data") else list(keep)
+        rows = [r for r, k in zip(self.rows, kd) if bool(k)]
+        return npmodel.SymArray(rows, "float64") if rows else _Empty()
+
+
+class _Empty:
+    shape = (0, 2)
+    ndim = 2
 
 
 def _install_masked():
@@ -486,16 +490,19 @@ class _MaskMask:
         self.mp = mp
         self.m = mp.isfinite_mask()
 
-    def all(self):
-        return self.m.all()
+    def all(self, *a, **kw):
+        return self.m.all(*a, **kw)
 
     @property
     def T(self):
         return self.m.T
 
+    def __getitem__(self, idx):
+        return self.m[idx]
+
 
 def _mp_getitem(self, idx):
-    keep, _ = idx
+    keep = idx[0] if isinstance(idx, tuple) else idx
     return self.filtered(keep)
 
 
